@@ -634,10 +634,10 @@ pub fn data_strategy(max: usize) -> impl Strategy<Value = Vec<u8>> {
     // Mostly text-like bytes with digits and newlines (so that the scan helpers do something),
     // but every byte value occurs.
     let byte = prop_oneof![
-        5 => (b'0'..=b'9'),
+        5 => b'0'..=b'9',
         2 => Just(b'\n'),
         2 => Just(b' '),
-        3 => (b'a'..=b'z'),
+        3 => b'a'..=b'z',
         2 => any::<u8>(),
     ];
     proptest::collection::vec(byte, 0..max)
